@@ -320,6 +320,24 @@ func runC20Cause(c *Ctx, d c20Desc) {
 				}
 			}
 		}
+		// documents written by hand (NOT through an encoder that pre-escapes): characters that are
+		// legal unescaped in the input but are escaped - and so grow - when the platform re-serialises
+		for _, ch := range []string{"<", ">", "&", "\u2028", "\u2029", "\u00e9<"} {
+			for _, k := range []int{9000, 10900, 10950, 21000, 40000, 60000, 65000, 65500} {
+				for _, field := range []string{"message", "working_directory"} {
+					doc := `{"` + field + `":"` + strings.Repeat(ch, k/len(ch)) + `"}`
+					checkCause(c, []byte(doc), "raw-"+field)
+					n++
+				}
+			}
+		}
+		// raw size just around the limit: the re-serialised form adds the keys that were absent
+		for delta := -70; delta <= 10; delta++ {
+			k := model.MaxErrorCauseSizeBytes + delta - len(`{"message":""}`)
+			checkCause(c, []byte(`{"message":"`+strings.Repeat("a", k)+`"}`), "raw-boundary")
+			checkCause(c, []byte(`{"paths":["`+strings.Repeat("p", k+2)+`"]}`), "raw-boundary")
+			n += 2
+		}
 		// many exceptions / paths
 		for _, k := range []int{10, 1000, 100000} {
 			cause := c20Cause{Message: "m"}
@@ -363,6 +381,12 @@ func runC20Cause(c *Ctx, d c20Desc) {
 			}
 			if r.Intn(10) == 0 {
 				b = bytes.Replace(b, []byte(`{`), []byte(`{"extra":[1,{"a":"b"}],`), 1)
+			}
+			if r.Intn(3) == 0 {
+				// hand back the unescaped spelling a runtime would send
+				for _, p := range [][2]string{{`\u003c`, "<"}, {`\u003e`, ">"}, {`\u0026`, "&"}} {
+					b = bytes.ReplaceAll(b, []byte(p[0]), []byte(p[1]))
+				}
 			}
 			checkCause(c, b, "rand")
 			n++
